@@ -109,3 +109,46 @@ Theorem c18_hand_attr_unquoted_refuted : exists s,
   attr_read (hand_attr QDouble s ++ [62]) = html_escape s.
 Proof. exact hand_attr_unquoted_refuted. Qed.
 Print Assumptions c18_hand_attr_unquoted_refuted.
+
+
+(* ---- stored (second-order) text: whatever a history of requests stored in a profile (binary registration answers
+   decoded by ANY parser), a page that shows the stored texts in template fields has the markup bytes of its own
+   template text alone: one `row` per stored text, then the tail *)
+Theorem c18_stored_fields_inert : forall (decode : bs -> list bs) history row c tail ct,
+  let st := store_of decode history in
+  skeleton (render (r_body (mkResp ct (stored_page row c st tail)))) =
+  skeleton (flat_map (fun _ => row) st ++ tail).
+Proof. exact stored_fields_inert. Qed.
+Print Assumptions c18_stored_fields_inert.
+
+(* not vacuous: a stored text shown through a field typed template.HTML (Raw) changes the markup of the page *)
+Theorem c18_stored_raw_refuted : exists decode history,
+  let st := store_of decode history in
+  skeleton (render (stored_page_raw [60;116;100;62] st [])) <>
+  skeleton (render (strip (stored_page_raw [60;116;100;62] st []))).
+Proof. exact stored_raw_refuted. Qed.
+Print Assumptions c18_stored_raw_refuted.
+
+(* ---- parts of a field: whatever a handler cuts out of the request text (part: any function), a quoted hand-built
+   attribute is read whole ... *)
+Theorem c18_part_quoted_inert : forall (part : bs -> bs) s rest,
+  attr_read (hand_attr QDouble (part s) ++ rest) = html_escape (part s) /\
+  attr_read (hand_attr QSingle (part s) ++ rest) = html_escape (part s).
+Proof. exact part_quoted_inert. Qed.
+Print Assumptions c18_part_quoted_inert.
+
+(* ... while the text in front of the `@` of a request text that no HTML escaper changes at all ends an UNQUOTED
+   hand-built attribute early; and the e-mail wrapper of the generator delivers any @-free payload to such a part *)
+Theorem c18_part_unquoted_refuted : exists s,
+  let p := before_at s in
+  attr_read (hand_attr QUnquoted p ++ [62]) <> html_escape p /\
+  unq_safe (html_escape p) = false /\
+  html_escape s = s /\
+  attr_read (hand_attr QDouble p ++ [62]) = html_escape p.
+Proof. exact part_unquoted_refuted. Qed.
+Print Assumptions c18_part_unquoted_refuted.
+
+Theorem c18_email_wrapper_reaches_part : forall p d,
+  has (fun c => c =? 64) p = false -> before_at (p ++ 64 :: d) = p.
+Proof. exact before_at_wrap. Qed.
+Print Assumptions c18_email_wrapper_reaches_part.
